@@ -56,7 +56,9 @@ def build_driver(dst):
 # ---------------------------------------------------------------------------
 # scripts from TLC behaviours
 
-GATED_TICK_MS = 10000
+# a tick of the step-by-step (gated) scripts: far above the 1 ms steps, and MaxTicks of them stay below the 3 s pauses of
+# the persist loop and the shutdown poll, which the model only ends by LongAdv
+GATED_TICK_MS = 600
 
 
 def convert_script(obj, sid, src, tick_ms=TICK_MS, gated=False):
@@ -65,7 +67,9 @@ def convert_script(obj, sid, src, tick_ms=TICK_MS, gated=False):
     vers = obj["vers"]
     for v in vers:
         v["delay"] = v["delay"] * tick_ms
-        v["retPeriod"] = v["retPeriod"] * tick_ms
+        # step-by-step scripts: a retention period ends half a tick after the model's tick count, so that the few ms the
+        # steps themselves take never decide whether a job has expired
+        v["retPeriod"] = v["retPeriod"] * tick_ms + (tick_ms // 2 if gated and v["retPeriod"] > 0 else 0)
     init = [0] * np_
     steps = []
     for s in obj["steps"]:
@@ -356,13 +360,19 @@ def model_check(work, cfgs, workers=8, timeout=1500):
 
 TIERS = {
     "quick": {"sim": [("Sim_Core.tla", "Sim_Core.cfg", 480, 200), ("Sim_Life.tla", "Sim_Life.cfg", 320, 200)],
-              "edges": [("Edges_Sched.tla", "Edges_Sched.cfg", "esched"), ("Edges_Delay.tla", "Edges_Delay.cfg", "edelay")],
-              "mc": [("MC_Core.tla", "MC_Core.cfg"), ("MC_Sched.tla", "MC_Sched.cfg"), ("MC_Delay.tla", "MC_Delay.cfg"), ("MC_Delay.tla", "MC_Live.cfg")]},
+              "edges": [("Edges_Sched.tla", "Edges_Sched.cfg", "esched"), ("Edges_Delay.tla", "Edges_Delay.cfg", "edelay"),
+                        ("Edges_Queue.tla", "Edges_Queue.cfg", "equeue"), ("Edges_Debounce.tla", "Edges_Debounce.cfg", "edebounce"),
+                        ("Edges_Shut.tla", "Edges_Shut.cfg", "eshut"), ("Edges_Rest.tla", "Edges_Rest.cfg", "erest")],
+              "mc": [("MC_Core.tla", "MC_Core.cfg"), ("MC_Sched.tla", "MC_Sched.cfg"), ("MC_Delay.tla", "MC_Delay.cfg"), ("MC_Delay.tla", "MC_Live.cfg"),
+                     ("MC_Queue.tla", "MC_Queue.cfg"), ("MC_Debounce.tla", "MC_Debounce.cfg"), ("MC_Shut.tla", "MC_Shut.cfg"), ("MC_Rest.tla", "MC_Rest.cfg")]},
     "thorough": {"sim": [("Sim_Core.tla", "Sim_Core.cfg", 6000, 300), ("Sim_Life.tla", "Sim_Life.cfg", 4000, 300)],
                  "edges": [("Edges_Sched.tla", "Edges_Sched.cfg", "esched"), ("Edges_Delay.tla", "Edges_Delay.cfg", "edelay"),
+                           ("Edges_Queue.tla", "Edges_Queue.cfg", "equeue"), ("Edges_Debounce.tla", "Edges_Debounce.cfg", "edebounce"),
+                           ("Edges_Shut.tla", "Edges_Shut.cfg", "eshut"), ("Edges_Rest.tla", "Edges_Rest.cfg", "erest"), ("Edges_Ret.tla", "Edges_Ret.cfg", "eret"),
                            ("Edges_Core.tla", "Edges_Core.cfg", "ecore")],
                  "mc": [("MC_Core.tla", "MC_Core.cfg"), ("MC_Sched.tla", "MC_Sched.cfg"), ("MC_Delay.tla", "MC_Delay.cfg"), ("MC_Delay.tla", "MC_Live.cfg"),
-                        ("MC_Core.tla", "MC_Core3.cfg"), ("MC_Life.tla", "MC_Life.cfg")]},
+                        ("MC_Queue.tla", "MC_Queue.cfg"), ("MC_Debounce.tla", "MC_Debounce.cfg"), ("MC_Shut.tla", "MC_Shut.cfg"), ("MC_Rest.tla", "MC_Rest.cfg"),
+                        ("MC_Ret.tla", "MC_Ret.cfg"), ("MC_Core.tla", "MC_Core3.cfg"), ("MC_Life.tla", "MC_Life.cfg")]},
 }
 
 
